@@ -304,6 +304,14 @@ def engine(pid, spec, tier, ws, out, log_dir, known):
                 findings += f
                 npaths += n
                 e2.functions.append("<%s as CredentialStore>::find_credentials::{closure#0} and its closures" % ("Option<Passkey>" if kind == "option" else "MemoryStore"))
+        if "rp_id" in todo:
+            cf = e2.mir_of("passkey-client", features=["android-asset-validation"])
+            for fnname in ("assert_valid_rp_id", "assert_android_rp_id"):
+                f, n = C.check_provider_argument(cf, fnname)
+                findings += f
+                npaths += n
+                e2.functions.append("RpIdVerifier::%s (MIR, with its closures)" % fnname)
+            e2.get_solver()
         if "from_slice" in todo:
             tf = e2.mir_of("passkey-types")
             cands = [n for n in tf if "attestation_fmt::<impl" in n and n.endswith(">::from_slice")]
